@@ -94,7 +94,7 @@ def validate(ctx, pid_mode, runs):
     return plans
 
 
-def gated_replay(ctx, q, cfg):
+def gated_replay(ctx, q, cfg, kinds=("sync", "async", "ws"), n_quick=300, n_thorough=3000):
     """spec -> impl: ClientMux behaviours sampled by TLC (simulation mode, history variable of action labels) are
     single-stepped on the three real clients through the probes cm_allocated / cm_registered / cm_written (callers)
     and cm_reader_read (reader); after every step the size of the pending map, and at every Take the caller's
@@ -102,11 +102,11 @@ def gated_replay(ctx, q, cfg):
     malformed frame, and fail_all_pending is stepped through cm_fail_start / cm_fail_mid (writer shut, THEN pending
     map drained), with callers registering and writing in between."""
     import json
-    n = 300 if q else 3000
+    n = n_quick if q else n_thorough
     beh = ctx.tlc_generate("MC_ClientMuxGen", cfg, ["ClientMux.tla"], timeout=1200,
                            extra_args=["-simulate", f"num={n}", "-depth", "80", "-seed", str(ctx.seed)])
     total = {"behaviours": 0, "steps": 0}
-    for kind in ("sync", "async", "ws"):
+    for kind in kinds:
         out = ctx.work / f"replay-{kind}-{cfg}.json"
         ctx.vh("mux-replay", "--client", kind, "--behaviours", beh, "--out", out, timeout=1500)
         r = json.loads(out.read_text())
@@ -118,7 +118,23 @@ def gated_replay(ctx, q, cfg):
             ctx.violation(f"mux-replay:{kind}:{label}", f"{kind} client, replaying a ClientMux behaviour: {f['what']}", f)
         if r["behaviours"] < n // 2 and not r["failures"]:
             raise vlib.ToolError(f"only {r['behaviours']} behaviours replayed on the {kind} client")
-    ctx.coverage["gated_replay"] = total
+    ctx.coverage.setdefault("gated_replay", {})[cfg] = total
     ctx.coverage["traces_validated_against_impl"] += total["behaviours"]
     ctx.coverage["evaluations"] += total["steps"]
     ctx.assume("the probes park a caller after id allocation, after registration and after its write, and the reader after each frame it read; the harness lets exactly one of them proceed per specification step")
+
+
+def stray_frames(ctx, pid):
+    """Frames nobody waits for (late responses to calls that gave up, ids never issued, unsubscribed notifies) whose
+    query and body are hostile in content only, and responses cut at every byte: the call in flight gets its own
+    response (or an error when the connection ended), nothing panics, nothing hangs.  Shared by C02, C04 and C06."""
+    import json
+    st = ctx.work / "stray.json"
+    ctx.vh("mux-stray", "--out", st, timeout=900)
+    for c in json.loads(st.read_text())["cases"]:
+        ctx.coverage["evaluations"] += 1
+        if c["panics"] or c["cls"] != "ok":
+            ctx.violation(f"client-reader:{c['client']}:{'panic' if c['panics'] else c['cls']}",
+                          f"{c['client']} client, a {c['flavour']} frame with a {c['query_len']}-byte query ({c['query']}) arrived while a call was in flight: "
+                          f"{c['panics']} panic(s) ({c['panic_msg']}), the call then returned {c['cls']} ({c['msg']})", c)
+
